@@ -34,6 +34,39 @@ PROPERTIES['C12'] = {
                   'Number only on solver-enumerated boundary witnesses (format() is a realisation boundary).',
 }
 
+_DOC_NOTE = ('Trusted: CrossHair, z3, the real parser for building scaffolds (untraced). Bounds: scaffold documents of 3 directives, '
+             'repeated fields with <= 4 items, index/slice bounds in [-n-3, n+3], <= 3 donors, steps in {1,2,3,-1,-2}; one operation per '
+             'cell (two in hist cells). Larger documents, longer histories and other templates are outside the claim.')
+_DOC_TEXT = ('Bounded symbolic checking of the real editing API on parsed scaffold documents: operation arguments (indexes, slice bounds, '
+             'donor counts/kinds, op codes) are symbolic over a stated box, CrossHair exhausts every path of the real code and z3 decides '
+             'each branch; the oracle is independent (%s).')
+
+PROPERTIES['C10'] = {
+    'modules': ['harness.rep_ops'], 'budget': {'quick': 900, 'thorough': 3300},
+    'level_text': _DOC_TEXT % 'a plain Python list subjected to the same operation; every filtered/converted view recomputed from it',
+    'level_note': _DOC_NOTE,
+}
+PROPERTIES['C03'] = {
+    'modules': ['harness.rep_ops'], 'budget': {'quick': 900, 'thorough': 3300},
+    'level_text': _DOC_TEXT % 'token-identity window between snapshots: only the child and adjacent separators may change, inside the parent',
+    'level_note': _DOC_NOTE,
+}
+PROPERTIES['C05'] = {
+    'modules': ['harness.rep_ops'], 'budget': {'quick': 900, 'thorough': 3300},
+    'level_text': _DOC_TEXT % 'a generic walker over the field descriptors checking store membership, span nesting/order/disjointness and leaf ownership',
+    'level_note': _DOC_NOTE,
+}
+PROPERTIES['C06'] = {
+    'modules': ['harness.rep_ops'], 'budget': {'quick': 900, 'thorough': 3300},
+    'level_text': _DOC_TEXT % 're-parse of the printed text compared with a semantic dump of the edited model',
+    'level_note': _DOC_NOTE + ' The re-parse speaks for the concrete text of each path.',
+}
+PROPERTIES['C19'] = {
+    'modules': ['harness.rep_ops'], 'budget': {'quick': 900, 'thorough': 3300},
+    'level_text': _DOC_TEXT % 'text, token identities and identity-level tree dump before vs after every refused call',
+    'level_note': _DOC_NOTE,
+}
+
 NOT_APPLICABLE = {
     'C16': 'The property is about the operating system and C io layer behind editor.py (text-mode newline translation, pathlib/glob/'
            'os.unlink/os.makedirs, mtimes): none of it can be executed symbolically by CrossHair or encoded for z3, CrossHair forbids '
